@@ -1,5 +1,7 @@
-(* Props/C04Known.v — refutations: for each flag claimed `true` in Actual/IgnoreActual.v (and for each deviating linter
-   pipeline) a concrete abstract file of the domain on which the faithful model differs from the specification.
+(* Props/C04Known.v — refutations: for each finding still listed as known (flags q_splitlines_unicode, q_start_rules_from_code and
+   each deviating linter pipeline) a concrete abstract file of the domain on which the faithful model differs from the
+   specification.  (The witnesses of the five findings repaired by the fix: commits are regression theorems now:
+   Proofs/IgnoreRegress.v, Props/C04.v section 9.)
    The same files are in corpus/C04 and are replayed on the implementation on every run. *)
 From TL Require Import Lib.Base Lib.GenTypes Gen.IgnoreGen Model.PyStr Model.Ignore Model.IgnoreSpec Model.IgnoreRun Actual.IgnoreActual.
 
@@ -9,28 +11,6 @@ Definition refutes (a : list aline) (v : nat) (r : string) : Prop :=
 (* a form feed shifts the parser's line numbers: the directive on line 2 is looked up on line 3 *)
 Definition w_formfeed : list aline := [LPlain (String c12 ""); LSame "y = 4242" Hash (Names "magic-numbers")].
 Theorem C04_splitlines_unicode_refuted : refutes w_formfeed 2 "magic-numbers.numeric-literal".
-Proof. vm_compute. repeat split; discriminate. Qed.
-
-Definition w_next_slash : list aline := [LNext "" Slashes (Names "magic-numbers"); LPlain "return 4242;"].
-Theorem C04_next_line_hash_only_refuted : refutes w_next_slash 2 "magic-numbers.numeric-literal".
-Proof. vm_compute. repeat split; discriminate. Qed.
-
-Definition w_file_slash : list aline := [LFile Slashes (Names "nesting"); LPlain "function f() {"].
-Theorem C04_file_hash_only_refuted : refutes w_file_slash 2 "nesting.excessive-depth".
-Proof. vm_compute. repeat split; discriminate. Qed.
-
-(* the violation on line 1 is outside (before) the block on lines 2-4, yet it is suppressed *)
-Definition w_before_block : list aline :=
-  [LPlain "x = 4242"; LStart "" Hash false (Names "magic-numbers"); LPlain "y = 1"; LEnd "" Hash].
-Theorem C04_block_end_before_refuted : refutes w_before_block 1 "magic-numbers.numeric-literal".
-Proof. vm_compute. repeat split; discriminate. Qed.
-
-Definition w_bare_line : list aline := [LSame "def f(a):" Hash Bare].
-Theorem C04_bare_line_unsupported_refuted : refutes w_bare_line 1 "nesting.excessive-depth".
-Proof. vm_compute. repeat split; discriminate. Qed.
-
-Definition w_bare_file : list aline := [LFile Hash Bare; LPlain "def f(a):"].
-Theorem C04_bare_file_unsupported_refuted : refutes w_bare_file 2 "nesting.excessive-depth".
 Proof. vm_compute. repeat split; discriminate. Qed.
 
 (* the bracket form names nesting only, yet magic-numbers inside the block is suppressed as well *)
